@@ -111,7 +111,7 @@ def declaration_step(nstate: int, op: int, which: int, badkey: int, v: int) -> b
     """
     hx.begin()
     pl = ParameterList()
-    vals = [[1, 2], "s", 3]
+    vals = [[1, 2], None, "s"]           # (a parameter whose single value is None is a declared parameter too)
     for i in range(nstate):
         pl.add_parameter(NAMES[i], vals[i])
     snap = list(pl._parameters.items())
@@ -174,7 +174,7 @@ def declaration_step(nstate: int, op: int, which: int, badkey: int, v: int) -> b
     # and build() follows the updated declaration (stale caches!)
     exp = [{}]
     for nm, val in exp_items:
-        singles = [val] if (type(val) is str or type(val) is int) else list(val)
+        singles = [val] if (val is None or type(val) is str or type(val) is int) else list(val)
         exp = [dict(d, **{nm: s}) for d in exp for s in singles]
     got = pl.build()
     if len(got) != len(exp):
